@@ -65,7 +65,23 @@ func TestReplay(t *testing.T) {
 }
 
 func replayAny(r Replay) *Violation {
+	if v, ok := replayStateless(r); ok {
+		return v
+	}
 	return ReplayHistory(r)
+}
+
+// TestStateless runs one registered stateless property (VERIF_STATELESS = its name).
+func TestStateless(t *testing.T) {
+	name := os.Getenv("VERIF_STATELESS")
+	sp := statelessProps[name]
+	if sp == nil {
+		t.Skip("VERIF_STATELESS not set")
+	}
+	env := &runEnv{prop: sp.Prop, tier: envOr("VERIF_TIER", "quick"), seed: seedFlag(), stats: NewStats(sp.Prop),
+		known: LoadKnown(), replayDir: envOr("VERIF_REPLAY_DIR", "../replays")}
+	defer env.stats.Write(os.Getenv("VERIF_STATS"))
+	rapid.Check(t, env.statelessProperty(sp))
 }
 
 // TestMinimize shrinks a replay file further by delta debugging over its action list (rapid's
